@@ -20,7 +20,7 @@ ENGINES = [
      "kind_free_text": "TLA+ monitors over traces of real threads on database clones; protocol events from hook H1 are "
                        "replayed through the SyncOps actions (guards + invariants)"},
     {"name": "core-trace", "path": "specs/core/CoreTrace.tla",
-     "serves_properties": ["C01", "C02", "C03", "C04", "C05", "C06", "C07", "C08", "C09", "C10", "C11", "C12", "C13", "C14", "C15", "C23"],
+     "serves_properties": ["C01", "C02", "C03", "C04", "C05", "C06", "C07", "C08", "C09", "C10", "C11", "C12", "C13", "C14", "C15", "C23", "C26"],
      "kind_free_text": "TLA+ monitor (trace specification) over Sem.tla reference semantics, evaluated by TLC on traces "
                        "recorded from real salsa by the programs-as-data harness"},
 ]
@@ -80,6 +80,8 @@ META = {
                 technique="TLA+ specification (EdgeCodec.tla) enumerated by TLC, cases replayed into the implementation"),
     "C24": par("PageAlloc.tla model-checked for all schedules (distinct ids, one writer per page); real threads creating inputs, "
                "interned values and tracked structs concurrently, every identity checked by the ParTrace monitor.", "§4.6, §7 C24"),
+    "C26": seq("Histories with serialize (serde_json) -> drop -> deserialize into a fresh database; every result vs the from-scratch "
+               "semantics, restored persisted memos must be reused unless something they read changed (ExecJustified).", "§7 C26"),
     "C23": dict(seq("Value-lifetime discipline only (no raw-memory claims): no drop while a reference of the same revision "
                     "is held, retained references keep their value, no double drop, nothing leaked at database drop.",
                     "§7 C23, §8"), level="exploration"),
